@@ -33,6 +33,7 @@ def _engine_for(pid: str):
         "C01": "check_interval", "C05": "check_interval", "C13": "check_interval", "C14": "check_interval",
         "C19": "check_generic",
         "C09": "check_platform",
+        "C02": "check_marker", "C07": "check_marker", "C12": "check_marker", "C15": "check_marker",
         "C04": "check_pep440", "C06": "check_pep440", "C17": "check_pep440",
         "C08": "check_wheel", "C16": "check_wheel", "C18": "check_wheel",
     }
